@@ -600,6 +600,56 @@ func TestVerifC19(t *testing.T) {
 				}
 				w3.sinks.close()
 			}
+			// a resolved tcp address refuses a connection at the moment something is dispatched to it
+			// and accepts again afterwards; the name keeps resolving to the same addresses: the
+			// rotation still contains exactly the resolved addresses
+			if scheme == "tcp" {
+				for o := 0; o < 4 && run.Violations() <= 3; o++ {
+					n0 := w.names[0]
+					set := append([]string{}, n0.pool[:3]...)
+					dynamicHostResolver.addressResolved(n0.name, append([]string{}, set...), nil)
+					n0.apply(true, set)
+					trace := []string{"n0:{1,2,3}", "one resolved tcp address refuses the connection of a dispatch, accepts again, same resolution again"}
+					if !w.quiesce(trace) || !w.dispatchProbe(trace) {
+						break
+					}
+					victim := fmt.Sprintf("%s:%d", set[rnd.Intn(3)], n0.port)
+					w.sinks.dropTCP(victim)
+					time.Sleep(5 * time.Millisecond)
+					id := fmt.Sprintf("w%drf%d", w.id, o)
+					for i := 0; i < 3; i++ {
+						w.fx.inject("127.1.0.1", 5060, w.request("OPTIONS", id, fmt.Sprintf("%s-%d", id, i), "a", ""))
+					}
+					w.sinks.wait(id, 2, 10*time.Second)
+					time.Sleep(10 * time.Millisecond)
+					w.sinks.forget(id)
+					var lerr error
+					for try := 0; try < 50; try++ {
+						if lerr = w.sinks.listenTCP(victim); lerr == nil {
+							break
+						}
+						time.Sleep(20 * time.Millisecond)
+					}
+					if lerr != nil {
+						run.Inconclusive(1)
+						return
+					}
+					dynamicHostResolver.addressResolved(n0.name, append([]string{}, set...), nil)
+					n0.apply(true, set)
+					ok := w.quiesce(trace)
+					for cyc := 0; cyc < 2 && ok; cyc++ {
+						ok = w.dispatchProbeAligned(trace)
+					}
+					atomic.AddInt64(&stats.steps, 1)
+					run.Eval(fmt.Sprintf("refused-then-back-w%d-%d", wi, o))
+					dynamicHostResolver.addressResolved(n0.name, []string{}, nil)
+					n0.apply(true, nil)
+					n0.ever = map[string]bool{}
+					if !w.quiesce([]string{"reset"}) {
+						return
+					}
+				}
+			}
 			// random sequences over subsets of 5, half of the workers with two names
 			w2 := w
 			if wi%4 >= 2 {
